@@ -20,7 +20,7 @@ PROPS = {
         "level_text": "The overlay algorithm (get, the MergeOverlay iterator, set/remove, commit replay) is transcribed into Lean and proved to refine a plain ordered map for every base, every op history, all bounds, both orders and any stacking depth; the transcription is tied to /repo by running both on the same generated op sequences (and a model-free ordered-map oracle on the implementation's answers).",
         "level_note": "Trusted: Lean kernel + propext/Classical.choice/Quot.sound; the hand transcription of transactions.rs, validated only by the generator-bounded correspondence; MemoryStorage (cosmwasm-std) modelled as a sorted association list; Rust borrow rules for 'base not mutated while borrowed'; non-empty values.",
         "props_module": "CwMt.Props.C06",
-        "slices": [{"name": "overlay", "quick": 3000, "thorough": 60000, "predicate": "pred_overlay", "nontrivial": "nt_overlay"}],
+        "slices": [{"name": "overlay", "quick": 20000, "thorough": 300000, "predicate": "pred_overlay", "nontrivial": "nt_overlay"}],
         "rule": "random op sequences (8-60 ops) over 12 fixed keys (empty key, 00/ff bytes, mutual prefixes) plus random short keys, "
                 "4 values, stack depth <= 4 (5 thorough), all bound pairs incl. none/inverted/equal, both orders; a case is non-trivial "
                 "if a range is evaluated on a cache of depth >= 1 that holds at least one local delta; distinct = distinct op sequence",
@@ -34,7 +34,7 @@ PROPS = {
         "level_text": "The namespace encoding and the four view operations are modelled in Lean and proved, for all byte strings and all base contents, to be exactly the window of raw keys under the prefix (incl. empty path, 0xFF prefixes, foreign short keys), with disjointness and sub-window theorems for paths; the model is tied to /repo by running the real App::prefixed_*storage views and the model on the same generated cases.",
         "level_note": "Trusted: Lean kernel + propext/Classical.choice/Quot.sound; hand transcription of prefixed_storage/*.rs validated by generator-bounded correspondence; MemoryStorage modelled as a sorted association list. Read-only views rejecting writes is checked by correspondence only (it is an unimplemented!() panic).",
         "props_module": "CwMt.Props.C07",
-        "slices": [{"name": "views", "quick": 2500, "thorough": 40000, "predicate": "pred_views", "nontrivial": "nt_views"}],
+        "slices": [{"name": "views", "quick": 12000, "thorough": 150000, "predicate": "pred_views", "nontrivial": "nt_views"}],
         "rule": "2-5 namespace paths per case (single/multi-level, empty path, empty/ff/00 segments, mutual extensions, 65535/65536-byte segments), "
                 "raw root keys adversarial for those paths (inside, truncations, byte successors, concatenated prefixes); view get/set/remove/range with all "
                 "bound shapes and both orders on read-only and mutable views, raw dump after every write; non-trivial = a non-empty view range was produced",
